@@ -1,0 +1,72 @@
+// Copyright 2021-2022 Buf Technologies, Inc.
+//
+// Licensed under the Apache License, Version 2.0 (the "License");
+// you may not use this file except in compliance with the License.
+// You may obtain a copy of the License at
+//
+//      http://www.apache.org/licenses/LICENSE-2.0
+//
+// Unless required by applicable law or agreed to in writing, software
+// distributed under the License is distributed on an "AS IS" BASIS,
+// WITHOUT WARRANTIES OR CONDITIONS OF ANY KIND, either express or implied.
+// See the License for the specific language governing permissions and
+// limitations under the License.
+
+//go:build verif
+
+package connect
+
+import (
+	"bytes"
+	"sync/atomic"
+)
+
+// This file is only compiled with the "verif" build tag. It lets the
+// verification harness in /verif observe buffer-pool traffic, poison released
+// buffers, and pause the library at its synchronisation points.
+
+type verifPoolObserver func(put bool, buffer *bytes.Buffer)
+
+type verifYieldObserver func(point string)
+
+var (
+	verifPoolHook  atomic.Value // verifPoolObserver
+	verifYieldHook atomic.Value // verifYieldObserver
+)
+
+// VerifSetPoolObserver installs a callback that sees every buffer taken from
+// or returned to a buffer pool. Passing nil removes it.
+func VerifSetPoolObserver(observer func(put bool, buffer *bytes.Buffer)) {
+	verifPoolHook.Store(verifPoolObserver(observer))
+}
+
+// VerifSetYield installs a callback invoked at the named synchronisation
+// points of a client call. Passing nil removes it.
+func VerifSetYield(observer func(point string)) {
+	verifYieldHook.Store(verifYieldObserver(observer))
+}
+
+func verifOnGet(buffer *bytes.Buffer) {
+	if observer, ok := verifPoolHook.Load().(verifPoolObserver); ok && observer != nil {
+		observer(false, buffer)
+	}
+}
+
+func verifOnPut(buffer *bytes.Buffer) {
+	// Poison the released bytes: anything still reading them after the release
+	// sees garbage deterministically.
+	raw := buffer.Bytes()
+	raw = raw[:cap(raw)]
+	for i := range raw {
+		raw[i] = 0xDB
+	}
+	if observer, ok := verifPoolHook.Load().(verifPoolObserver); ok && observer != nil {
+		observer(true, buffer)
+	}
+}
+
+func verifYield(point string) {
+	if observer, ok := verifYieldHook.Load().(verifYieldObserver); ok && observer != nil {
+		observer(point)
+	}
+}
